@@ -23,6 +23,15 @@ let sem_tptp (e : Sexp.t) : Sexp.t =
       | Ok toks ->
         match M.TptpPrint.tff_read toks with
         | None -> L [ A "cex"; L [ A "not-a-tff-formula" ]; S text ]
+        | Some g when
+            (* sorts survive: g type-checks against the declarations anthem would emit for F
+               (preamble + predicates/constants of F), free variables typed by their sort *)
+            (let pb = { M.Problem.pb_name = cl_of_string "f";
+                        pb_formulas = [ { M.Problem.pf_name = cl_of_string "f"; pf_role = M.Problem.PConjecture; pf_formula = f } ] } in
+             M.ProblemPrint.ident_ok pb
+             && not (M.TffWt.wt_formula (M.TffWt.decl_sigs (M.ProblemPrint.emit pb))
+                       (List.map M.TptpPrint.tff_of_var (free_variables f)) g)) ->
+          L [ A "cex"; L [ A "ill-typed-tff-formula" ]; S text ]
         | Some g ->
           let st = Semlib.rng_of (Semlib.hash_sexp e) in
           let w = Semlib.window_of ~max_ints:4 ~max_syms:3 [ f ] in
@@ -108,7 +117,8 @@ let sem_problem_wt ~(strict : bool) (e : Sexp.t) : Sexp.t =
             let excuse excusable = (not strict) && excusable && in_class in
             match (try Ok (Tff_problem_read.read text) with Tff_problem_read.Read_error msg -> Error msg) with
             | Error msg ->
-              if not (excuse true) then
+              (* an input formula with free variables is outside the property's premise *)
+              if not (excuse true) && (strict || closed) then
                 result := Some (L [ A "cex"; L [ A "problem"; A (string_of_int i) ]; L [ A "unreadable"; S msg ] ])
             | Ok tp ->
               let fails = List.filter (fun (_, okc, _, _) -> not okc) (wt_components tp) in
